@@ -131,6 +131,18 @@ func (e *Engine) VerifyFunc(fn *ssa.Function, spec *FuncSpec) (res *FuncResult) 
 		}
 		ctx := &specCtx{e: e, st: s, env: penv, heaps: s.heaps, oldHeaps: s.old, pkg: fn.Pkg, results: results, goal: true}
 		root := s.frames[0]
+		for _, w := range spec.Witness {
+			wenv := map[string]Val{}
+			for k, v := range env {
+				wenv[k] = v
+			}
+			lc := &specCtx{e: e, st: s, env: wenv, heaps: s.heaps, oldHeaps: s.old, fr: root, pkg: fn.Pkg}
+			if v, ok := lc.tryEval(w.E); ok {
+				penv[w.Name] = v
+			} else {
+				penv[w.Name] = VInt{e.fresh("unset_"+w.Name, IntS)} // a local it mentions was never declared on this path
+			}
+		}
 		ctx.iters = func(ord int) *Term {
 			if ord < len(fi.byOrd) {
 				if lc := root.loops[fi.byOrd[ord].head]; lc != nil {
